@@ -259,7 +259,7 @@ def in_child(fn):
         try:
             os.close(r)
             try:
-                data = json.dumps(fn()).encode()
+                data = json.dumps(dict(out=fn(), cov=c3.wsgi_cov.export() if c3.wsgi_cov.ENABLED else None)).encode()
             except BaseException as e:  # noqa
                 data = json.dumps({'child_error': '%s: %s' % (type(e).__name__, str(e)[:200])}).encode()
             with os.fdopen(w, 'wb') as f:
@@ -276,7 +276,11 @@ def in_child(fn):
         except OSError:
             pass
         os.waitpid(pid, 0)
-    return json.loads(data) if data else {'child_error': 'no output'}
+    res = json.loads(data) if data else {'child_error': 'no output'}
+    if 'out' in res:
+        c3.wsgi_cov.merge(res.get('cov'))
+        return res['out']
+    return res
 
 
 def run_history(case):
@@ -311,6 +315,9 @@ def run_impl(case):
     if case['kind'] == 'rule':
         return run_rule(case)
     import ombott  # noqa: the children inherit the imported, unused modules
+    if c3.wsgi_cov.ENABLED:
+        import os
+        c3.wsgi_cov.start(os.environ.get('VERIF_REPO', '/repo'))
     obs = in_child(lambda: run_history(case))
     if 'responses' not in obs:
         return obs
